@@ -47,7 +47,7 @@ FLOORS = {'*': {**{f'{v}:{o}': 30 for v in ('jsonschema', 'pydantic') for o in (
                 'client-sets-excluded': 30, 'client-sets-context': 30, 'style:view': 100, 'style:async': 100, 'passing:named': 300,
                 'passing:positional': 300, 'refusal-data-checked': 300, 'pydantic:live-exception-in-error': 5,
                 'jsonschema:required-or-additional': 50, 'no-arguments-call': 50, 'twin-registration-calls': 100,
-                'pydantic:default-none-on-non-optional': 50, 'pydantic:unhashable-default': 30, 'jsonschema:declares-draft-04': 50, 'pydantic:postponed-annotations': 100, 'dispatcher-from-add_endpoint': 100}}
+                'pydantic:default-none-on-non-optional': 50, 'pydantic:unhashable-default': 30, 'dispatcher:json-loader-yields-Decimal': 100, 'context-handed-over-positionally': 100, 'jsonschema:declares-draft-04': 50, 'pydantic:postponed-annotations': 100, 'dispatcher-from-add_endpoint': 100}}
 
 ABSENT = '__absent__'
 
@@ -217,6 +217,9 @@ def endpoint_dispatcher(via, is_async):
 
 
 VIA = {'via': None}
+# dispatcher-level options of a case: a json_loader that yields non-builtin numbers (parse_float=Decimal, the documented way to
+# keep money exact), and a context handed over positionally (Method(..., positional=True))
+DISP = {'kwargs': {}, 'ctx_positional': False}
 
 
 def build(params, with_ctx, skip, style, validator, deco_kwargs, annotate, postponed=False):
@@ -238,7 +241,7 @@ def build(params, with_ctx, skip, style, validator, deco_kwargs, annotate, postp
         src = 'from __future__ import annotations\n' + src
     exec(compile(src, '<vmon_c14_programs>', 'exec', dont_inherit=True), ns)
     is_async = style == 'async'
-    disp = endpoint_dispatcher(VIA['via'], is_async) or (pjrpc.server.AsyncDispatcher if is_async else pjrpc.server.Dispatcher)()
+    disp = endpoint_dispatcher(VIA['via'], is_async) or (pjrpc.server.AsyncDispatcher if is_async else pjrpc.server.Dispatcher)(**DISP['kwargs'])
     if style == 'view':
         validator.validate(ns['View'].f, **deco_kwargs)
         reg = pjrpc.server.MethodRegistry()
@@ -248,7 +251,7 @@ def build(params, with_ctx, skip, style, validator, deco_kwargs, annotate, postp
         disp.add_methods(reg)
     else:
         validator.validate(ns['f'], **deco_kwargs)
-        disp.add(ns['f'], 'f', context='ctx' if with_ctx else None)
+        disp.add(ns['f'], 'f', context='ctx' if with_ctx else None, **({'positional': True} if with_ctx and DISP['ctx_positional'] else {}))
         if with_ctx:
             # the same function object registered a second time WITHOUT a context designation: `ctx` is ordinary there
             disp.add(ns['f'], 'f2')
@@ -346,6 +349,7 @@ def _safe(runs):
 def run_js(ctx, params, frags, required, additional, with_ctx, skip, style, draft=None, via=None):
     plist = [(n, k, d, None) for n, k, d in params]
     VIA['via'] = via
+    DISP['kwargs'], DISP['ctx_positional'] = {}, False
     if via:
         ctx.hit('dispatcher-from-add_endpoint')
     DRAFT['declared'] = draft
@@ -466,9 +470,17 @@ def js_cases(ctx, plist, frags, with_ctx, skip):
 
 # ---- pydantic programs -----------------------------------------------------------------------------------
 
-def run_pd(ctx, params, with_ctx, skip, style, coerce, postponed=False, via=None):
+def run_pd(ctx, params, with_ctx, skip, style, coerce, postponed=False, via=None, loader=None, ctx_positional=False):
     """params: [(name, kind, has_default, annotation)]"""
     VIA['via'] = via
+    import decimal
+    import functools
+    DISP['kwargs'] = {'json_loader': functools.partial(json.loads, parse_float=decimal.Decimal)} if loader == 'decimal' and not via else {}
+    DISP['ctx_positional'] = bool(ctx_positional and with_ctx and style != 'view')
+    if DISP['kwargs']:
+        ctx.hit('dispatcher:json-loader-yields-Decimal')
+    if DISP['ctx_positional']:
+        ctx.hit('context-handed-over-positionally')
     if via:
         ctx.hit('dispatcher-from-add_endpoint')
     if postponed:
@@ -631,9 +643,14 @@ def gen(ctx):
                     else:
                         a = rng.choice(['str', 'Optional[int]'])       # defaults must conform to the annotation
                 plist.append([n, kind, dflt, a])
+            extra = {}
+            if (k // 7) % 3 == 0 and not any(p[3] == 'float' for p in plist):
+                extra['loader'] = 'decimal'          # (float-annotated parameters left out: a Decimal is no float to an as-is method)
+            if (k // 3) % 2 == 0:
+                extra['ctx_positional'] = True
             yield 'pd', dict(params=plist, with_ctx=bool(k % 2), skip=bool((k // 2) % 2),
                              style=('def', 'async', 'view', 'def')[k % 4], coerce=bool((k // 4) % 2), postponed=(k % 3 == 0),
-                             via=(None, 'flask-endpoint', None, 'aiohttp-endpoint', None)[(k // 5) % 5])
+                             via=(None, 'flask-endpoint', None, 'aiohttp-endpoint', None)[(k // 5) % 5], **extra)
     # every annotation alone, both coercion modes, every table entry
     for a in anns:
         for coerce in (True, False):
